@@ -499,26 +499,11 @@ def law_violations(case):
     return sorted(set(bad))
 
 
-# HTTP dates are GMT: what a static-file app answers must not depend on the zone the server process runs in.  Every
-# history is run under a zone chosen from its own text (west and east of Greenwich, with and without daylight saving).
-ZONES = ["UTC0", "EST5", "JST-9", "PST8PDT", "<+1345>-13:45", "CET-1CEST"]
-
-
-def _set_zone(case):
-    import time
-    import zlib
-    z = ZONES[zlib.crc32(repr(case).encode()) % len(ZONES)]
-    if os.environ.get("TZ") != z:
-        os.environ["TZ"] = z
-        time.tzset()
-
-
 def impl(case):
     if case[0] == "inm":
         env = _setup()
         return [1 if env["apps"][(0, 0)].if_none_match(case[1], case[2]) else 0]
     env = _setup()
-    _set_zone(case)
     _, app, iface, pk, now, init, forms, ops = case
     name, url = PATHS[app][pk]
     path = os.path.join(env["dir"], name)
@@ -590,9 +575,9 @@ def ENCODE(case):
     _, app, iface, pk, now, init, forms, ops = case
     env = _setup()
     # the second a date text denotes is an input of the model (email.utils is the oracle): computed under the zone the
-    # implementation runs this history in — a date text WITHOUT a zone (not what a response ever sends as Last-Modified, but
-    # a malformed variant of the generator) is read by parsedate_to_datetime(...).timestamp() in the process's local zone
-    _set_zone(case)
+    # implementation runs this history in (core sets it per case, for ENCODE and the implementation alike) — a date text
+    # WITHOUT a zone (not what a response ever sends as Last-Modified, but a malformed variant of the generator) is read by
+    # parsedate_to_datetime(...).timestamp() in the process's local zone
     path = os.path.join(env["dir"], PATHS[app][pk][0])
     gen_etag = etag_fn(iface)
     states = walk(case)
